@@ -6,13 +6,19 @@ Line-protocol driver for the half model (C01/C02/C03).
   f2h_blocks <lo> <hi> [canon]  one line per block b in [lo,hi): hash of f2h over floats b*2^16 .. b*2^16+65535
                                 (canon = 1: NaN results are first mapped to sign|0x7e00)
   f2h_range <lo> <hi> [canon]   f2h of every float pattern in [lo,hi)
+  f2hx_blocks <lo> <hi>         the same for the FP-exceptions variant f2hExc: hash over result ||| raised<<<16
+  f2hx_list <block>..           those hashes for an explicit list of blocks
+  f2hx_range <lo> <hi>          result ||| raised<<<16 of every float pattern in [lo,hi)
   h2f_all                       65,536 lines: h2f h (hex)
   gen_all                       65,536 lines: h2fGen h (hex)
   f2h <hex>.. / h2f <hex>..     single conversions
   round_all <n>                 65,536 lines: roundN n h
   class_all                     65,536 lines: 7 classification bits + neg
+  classf_all                    65,536 lines: the same + binary32 class of `h2f h` (0 zero, 1 normal, 2 subnormal,
+                                3 infinite, 4 nan) + its sign bit   (C03: against std::fpclassify / std::signbit)
   lut <f> <dmin> <dmax>         65,536 lines: halfFunction table, f in id|neg|round3, domain as half bit patterns (hex),
                                 default, +inf, -inf, nan values 0x10000..0x10003
+  lutv <f> <dmin> <dmax> <dflt> <pinf> <ninf> <nan>   the same with the four designated values given (hex)
   arith_eval                    stdin lines "h <a> <b>" (half rhs) or "f <a> <floatbits>" -> "<a+=b> <a-=b> <a*=b> <a/=b>"
   arith_list                    stdin line 1: half patterns, line 2: float patterns; per a: "<hash over half rhs> <hash over float rhs>"
   arith_blocks <lo> <hi>        per a in [lo,hi): hash over all 65,536 half right-hand sides x 4 operators
@@ -25,9 +31,16 @@ open ImathVerif.Half ImathVerif.HalfFunction
 
 def hex (n : Nat) : String := String.ofList (Nat.toDigits 16 n)
 
-/-- NaN results -> sign|0x7e00 (the F16C comparison of C02 ignores NaN payloads) -/
-@[inline] def canon16 (h : Nat) : Nat :=
-  if h &&& 0x7c00 = 0x7c00 ∧ h &&& 0x3ff ≠ 0 then (h &&& 0x8000) ||| 0x7e00 else h
+-- `canon16` (NaN results -> sign|0x7e00, the F16C comparison of C02) lives in Model/Half.lean
+
+/-- hash over (result ||| raised <<< 16) of the FP-exceptions variant `f2hExc` -/
+def blockHashX (b : Nat) : UInt64 := Id.run do
+  let mut h : UInt64 := 1469598103934665603
+  let base := b * 65536
+  for i in [0:65536] do
+    let (r, x) := f2hExc (base + i)
+    h := (h ^^^ (r + x * 65536).toUInt64) * 1099511628211
+  return h
 
 def blockHash (canon : Bool) (b : Nat) : UInt64 := Id.run do
   let mut h : UInt64 := 1469598103934665603
@@ -125,15 +138,34 @@ def main (args : List String) : IO Unit := do
     for x in [lo.toNat!:hi.toNat!] do
       let r := f2h x
       out.putStrLn (hex (if canon then canon16 r else r))
+  | ["f2hx_blocks", lo, hi] =>
+    let res ← parBlocks lo.toNat! hi.toNat! blockHashX
+    for r in res do out.putStrLn (hex r.toNat)
+  | "f2hx_list" :: bs =>
+    let arr := (bs.map String.toNat!).toArray
+    let res ← parBlocks 0 arr.size fun i => blockHashX arr[i]!
+    for r in res do out.putStrLn (hex r.toNat)
+  | ["f2hx_range", lo, hi] =>
+    for x in [lo.toNat!:hi.toNat!] do
+      let (r, e) := f2hExc x
+      out.putStrLn (hex (r + e * 65536))
   | ["h2f_all"] => for h in [0:65536] do out.putStrLn (hex (h2f h))
   | ["gen_all"] => for h in [0:65536] do out.putStrLn (hex (h2fGen h))
   | ["round_all", n] => for h in [0:65536] do out.putStrLn (hex (roundN n.toNat! h))
   | ["class_all"] => for h in [0:65536] do out.putStrLn s!"{classBits h} {hex (neg h)}"
+  | ["classf_all"] =>
+    for h in [0:65536] do
+      out.putStrLn s!"{classBits h} {hex (neg h)} {fpClass32 (h2f h)} {h2f h / 2147483648 % 2}"
   | "f2h" :: xs => for x in xs do out.putStrLn (hex (f2h (parseHex x)))
   | "h2f" :: xs => for x in xs do out.putStrLn (hex (h2f (parseHex x)))
   | ["lut", fname, dmin, dmax] =>
     let p := lutParams fname (parseHex dmin) (parseHex dmax)
     let tbl := lutFill p          -- the constructor runs once; `apply p h` is the read `tbl[h]!`
+    for h in [0:65536] do out.putStrLn (hex tbl[h]!)
+  | ["lutv", fname, dmin, dmax, d, pi, ni, q] =>
+    let p := { lutParams fname (parseHex dmin) (parseHex dmax) with
+               defaultValue := parseHex d, posInfValue := parseHex pi, negInfValue := parseHex ni, nanValue := parseHex q }
+    let tbl := lutFill p
     for h in [0:65536] do out.putStrLn (hex tbl[h]!)
   | ["arith_eval"] =>
     let lines ← readLines (← IO.getStdin) #[]
